@@ -645,7 +645,7 @@ class Interp:
 
     def getattr(self, o, name):
         if isinstance(o, Opt):
-            o = self.p.unwrap(o)
+            o = o.val if self.p.spec_mode else self.p.unwrap(o)
         if o is None:
             raise self.p.pyexc('AttributeError')
         if isinstance(o, Obj):
@@ -810,8 +810,12 @@ class Interp:
         # spec forms
         if isinstance(n.func, ast.Name):
             if n.func.id == 'old' and self.old_env is not None:
-                saved = self.p.spec_mode
                 return self.engine.eval_old(self, n.args[0], env)
+            if n.func.id == 'implies' and self.p.spec_mode and len(n.args) == 2:
+                x = self.eval(n.args[0], env)
+                if x is False:
+                    return True         # the consequent is not evaluated (it may dereference None)
+                return self.models.s_implies(self, [x, self.eval(n.args[1], env)], {})
         f = self.eval(n.func, env)
         args = []
         for a in n.args:
@@ -926,10 +930,20 @@ class Interp:
             return self.eval(node.body, env)
         qual = f.name
         # a callee under contract is replaced by its contract (modular verification)
-        if self.depth > 0 or self.engine.always_modular:
+        if self.depth > 0 or self.p.spec_mode or self.engine.always_modular:
             c = self.engine.callee_contract(qual, self)
             if c is not None:
                 vals = self.bind(node, args, kwargs, f.env, f.self_obj)
+                if c.pure:
+                    # a pure function applied to the same argument objects yields the same result object
+                    key = (c.qual,) + tuple((k, id(v) if not isinstance(v, (int, str, Fraction, bool, type(None))) else ('v', v))
+                                            for k, v in sorted(vals.items()))
+                    memo = self.p.__dict__.setdefault('pure_memo', {})
+                    if key in memo:
+                        return memo[key][1]
+                    r = self.engine.apply_contract(self, c, vals)
+                    memo[key] = (vals, r)
+                    return r
                 return self.engine.apply_contract(self, c, vals)
         if self.depth > MAX_DEPTH:
             raise Unsupported('call depth')
